@@ -11,6 +11,12 @@
 (* Operation sequences drive the overflow bookkeeping of the real library   *)
 (* (long addition chains force automatic reductions, Sub computes paddings  *)
 (* from the tracked overflow, Mul defers a polynomial identity check).      *)
+(* Witness inputs also take the non-canonical values q and q+2, which fit  *)
+(* the limbs and which a prover may assign.  Equality and zero tests, bit   *)
+(* decompositions, square roots, exponentiation and the variable-modulus    *)
+(* operations are part of the alphabet; cases the documentation leaves      *)
+(* open (0/0, 0^0, a non-canonical exponent, modulus 0) are marked          *)
+(* unspecified and not judged.                                              *)
 (* Each program is replayed on the real emulated.Field of several parameter *)
 (* sets through the real prover; hint-using programs are also replayed      *)
 (* with every hint output perturbed, which must make the prover fail.       *)
@@ -19,31 +25,60 @@ EXTENDS Integers, Sequences, FiniteSets, TLC, Json
 
 CONSTANTS Q, MaxLen, Emit
 
-Ops == {"Add", "Sub", "Mul", "Neg", "Div", "Inverse", "Reduce", "MulConst3", "Select", "Mux3", "Lookup2", "Sum3", "AddChain", "Sqr", "IsZeroSel"}
-Arity(op) == CASE op \in {"Neg", "Inverse", "Reduce", "MulConst3", "AddChain", "Sqr"} -> 1
-               [] op \in {"Add", "Sub", "Mul", "Div", "Select", "IsZeroSel"} -> 2
+Ops == {"Add", "Sub", "Mul", "Neg", "Div", "Inverse", "Reduce", "MulConst3", "Select", "Mux3", "Lookup2", "Sum3", "AddChain", "Sqr", "IsZeroSel",
+        "SqrtSq", "Exp", "CanonBits", "Bits", "AssertEq", "AssertDiff", "LeqStrict", "ReduceStrict", "MulNR", "Eval2",
+        "ModMulB", "ModAddB", "ModExpB"}
+Arity(op) == CASE op \in {"Neg", "Inverse", "Reduce", "MulConst3", "AddChain", "Sqr", "SqrtSq", "CanonBits", "Bits", "ReduceStrict"} -> 1
+               [] op \in {"Add", "Sub", "Mul", "Div", "Select", "IsZeroSel", "Exp", "AssertEq", "AssertDiff", "LeqStrict", "MulNR", "Eval2",
+                          "ModMulB", "ModAddB", "ModExpB"} -> 2
                [] op \in {"Mux3", "Sum3"} -> 3
                [] op = "Lookup2" -> 4
+\* variable-modulus operations (modulus = the witness b) are defined on the integer values of their operands, and the
+\* exponent of Exp is used as an integer: these positions only take inputs (whose integer value the program fixes), not temporaries
+RawOperand(op, pos) == op \in {"ModMulB", "ModAddB", "ModExpB"} \/ (op = "Exp" /\ pos = 2)
 
 Inv(x) == CHOOSE y \in 0..(Q - 1) : (x * y) % Q = 1
+IsQR(x) == \E y \in 0..(Q - 1) : (y * y) % Q = x
+RECURSIVE PowMod(_, _, _)
+PowMod(x, e, m) == IF e = 0 THEN 1 % m ELSE (x * PowMod(x, e - 1, m)) % m
 
-\* sel is the value of the native selector input (0/1, or 0..2 for Mux3) taken from the probe
-Eval(op, a, sel) ==
-  CASE op = "Add" -> [ok |-> TRUE, v |-> (a[1] + a[2]) % Q]
-    [] op = "Sub" -> [ok |-> TRUE, v |-> (a[1] + Q - a[2]) % Q]
-    [] op = "Mul" -> [ok |-> TRUE, v |-> (a[1] * a[2]) % Q]
-    [] op = "Sqr" -> [ok |-> TRUE, v |-> (a[1] * a[1]) % Q]
-    [] op = "Neg" -> [ok |-> TRUE, v |-> (Q - a[1]) % Q]
-    [] op = "Div" -> IF a[2] = 0 THEN [ok |-> FALSE, v |-> 0] ELSE [ok |-> TRUE, v |-> (a[1] * Inv(a[2])) % Q]
-    [] op = "Inverse" -> IF a[1] = 0 THEN [ok |-> FALSE, v |-> 0] ELSE [ok |-> TRUE, v |-> Inv(a[1])]
-    [] op = "Reduce" -> [ok |-> TRUE, v |-> a[1]]
-    [] op = "MulConst3" -> [ok |-> TRUE, v |-> (3 * a[1]) % Q]
-    [] op = "AddChain" -> [ok |-> TRUE, v |-> (a[1] * 341) % Q]          \* x added to itself 340 times
-    [] op = "Select" -> [ok |-> TRUE, v |-> IF sel % 2 = 1 THEN a[1] ELSE a[2]]
-    [] op = "Mux3" -> [ok |-> TRUE, v |-> a[(sel % 3) + 1]]
-    [] op = "Lookup2" -> [ok |-> TRUE, v |-> a[(sel % 4) + 1]]
-    [] op = "Sum3" -> [ok |-> TRUE, v |-> (a[1] + a[2] + a[3]) % Q]
-    [] op = "IsZeroSel" -> [ok |-> TRUE, v |-> IF a[1] = 0 THEN a[2] ELSE (a[2] + 1) % Q]   \* Select(IsZero(x), y, y+1)
+V(x) == [ok |-> TRUE, un |-> FALSE, v |-> x % Q]
+Fail == [ok |-> FALSE, un |-> FALSE, v |-> 0]
+Unspec == [ok |-> FALSE, un |-> TRUE, v |-> 0]
+
+\* a: operand values (integers; witness inputs may be non-canonical: q, q+2); c[i] = a[i] mod Q
+\* sel: the value of the native selector input; m: the integer value of the witness b (modulus of the Mod operations)
+Eval(op, a, sel, m) ==
+  LET c == [i \in DOMAIN a |-> a[i] % Q] IN
+  CASE op = "Add" -> V(c[1] + c[2])
+    [] op = "Sub" -> V(c[1] + Q - c[2])
+    [] op = "Mul" -> V(c[1] * c[2])
+    [] op = "MulNR" -> V(c[1] * c[2])                                   \* Reduce(MulNoReduce(x, y))
+    [] op = "Sqr" -> V(c[1] * c[1])
+    [] op = "Neg" -> V(Q - c[1])
+    [] op = "Div" -> IF c[2] = 0 THEN (IF c[1] = 0 THEN Unspec ELSE Fail) ELSE V(c[1] * Inv(c[2]))   \* 0/0: any quotient satisfies q*0 = 0
+    [] op = "Inverse" -> IF c[1] = 0 THEN Fail ELSE V(Inv(c[1]))
+    [] op = "Reduce" -> V(c[1])
+    [] op = "ReduceStrict" -> V(c[1])
+    [] op = "MulConst3" -> V(3 * c[1])
+    [] op = "AddChain" -> V(c[1] * 341)                                 \* x added to itself 340 times
+    [] op = "Select" -> V(IF sel % 2 = 1 THEN c[1] ELSE c[2])
+    [] op = "Mux3" -> V(c[(sel % 3) + 1])
+    [] op = "Lookup2" -> V(c[(sel % 4) + 1])
+    [] op = "Sum3" -> V(c[1] + c[2] + c[3])
+    [] op = "Eval2" -> V(c[1] * c[1] + 2 * c[1] * c[2] + 3 * c[2])      \* Eval({{x,x},{x,y},{y}}, {1,2,3})
+    [] op = "IsZeroSel" -> V(IF c[1] = 0 THEN c[2] ELSE c[2] + 1)       \* Select(IsZero(x), y, y+1)
+    [] op = "SqrtSq" -> IF IsQR(c[1]) THEN V(c[1]) ELSE Fail            \* Mul(Sqrt(x), Sqrt(x)); no root: unsatisfiable
+    [] op = "Exp" -> IF a[2] >= Q \/ (c[1] = 0 /\ a[2] = 0) THEN Unspec ELSE V(PowMod(c[1], a[2], Q))
+    [] op = "CanonBits" -> V(c[1])                                      \* FromBits(ToBitsCanonical(x)); native output checked too
+    [] op = "Bits" -> V(c[1])                                           \* FromBits(ToBits(x))
+    [] op = "AssertEq" -> IF c[1] = c[2] THEN V(c[1]) ELSE Fail
+    [] op = "AssertDiff" -> IF c[1] # c[2] THEN V(c[1]) ELSE Fail
+    [] op = "LeqStrict" -> IF c[1] <= c[2] THEN V(c[1]) ELSE Fail       \* AssertIsLessOrEqual(ReduceStrict(x), ReduceStrict(y))
+    \* variable modulus: result congruent modulo m to the integer result; v carries the canonical residue modulo m
+    [] op = "ModMulB" -> IF m = 0 THEN Unspec ELSE [ok |-> TRUE, un |-> FALSE, v |-> (a[1] * a[2]) % m]
+    [] op = "ModAddB" -> IF m = 0 THEN Unspec ELSE [ok |-> TRUE, un |-> FALSE, v |-> (a[1] + a[2]) % m]
+    [] op = "ModExpB" -> IF m = 0 \/ (a[1] = 0 /\ a[2] = 0) THEN Unspec ELSE [ok |-> TRUE, un |-> FALSE, v |-> PowMod(a[1] % m, a[2], m)]
 
 VARIABLES prog, cur, done
 vars == <<prog, cur, done>>
@@ -56,8 +91,11 @@ ChooseOp == /\ Len(prog) < MaxLen /\ cur = NoCur /\ \E op \in Ops : cur' = [op |
 ChooseOperand ==
   /\ cur # NoCur
   /\ \E r \in Refs(Len(prog)) :
-       LET c2 == [cur EXCEPT !.a = Append(cur.a, r)] IN
-       IF Len(c2.a) = Arity(c2.op) THEN prog' = Append(prog, c2) /\ cur' = NoCur ELSE cur' = c2 /\ UNCHANGED prog
+       /\ (RawOperand(cur.op, Len(cur.a) + 1) => r.k # "t")
+       \* the result of a variable-modulus operation is only defined modulo b: it is checked, not reused
+       /\ (r.k = "t" => prog[r.i + 1].op \notin {"ModMulB", "ModAddB", "ModExpB"})
+       /\ LET c2 == [cur EXCEPT !.a = Append(cur.a, r)] IN
+          IF Len(c2.a) = Arity(c2.op) THEN prog' = Append(prog, c2) /\ cur' = NoCur ELSE cur' = c2 /\ UNCHANGED prog
   /\ UNCHANGED done
 
 RefVal(r, av, bv, temps) == CASE r.k = "a" -> av [] r.k = "b" -> bv [] r.k = "zero" -> 0 [] r.k = "one" -> 1 % Q [] r.k = "qm1" -> Q - 1 [] r.k = "t" -> temps[r.i + 1]
@@ -65,13 +103,16 @@ RefVal(r, av, bv, temps) == CASE r.k = "a" -> av [] r.k = "b" -> bv [] r.k = "ze
 RECURSIVE Run(_, _, _, _, _, _)
 Run(p, k, av, bv, sel, st) ==
   IF k > Len(p) \/ ~st.ok THEN st
-  ELSE LET r == Eval(p[k].op, [j \in 1..Len(p[k].a) |-> RefVal(p[k].a[j], av, bv, st.temps)], sel)
-       IN Run(p, k + 1, av, bv, sel, [ok |-> r.ok, temps |-> Append(st.temps, r.v)])
+  ELSE LET r == Eval(p[k].op, [j \in 1..Len(p[k].a) |-> RefVal(p[k].a[j], av, bv, st.temps)], sel, bv)
+       IN Run(p, k + 1, av, bv, sel, [ok |-> r.ok, un |-> r.un, temps |-> IF r.ok THEN Append(st.temps, r.v) ELSE st.temps])
 
-ProbeVals == <<0, 1, 2, Q - 1>>
-Probes == [i \in 1..32 |-> LET av == ProbeVals[((i - 1) % 4) + 1]  bv == ProbeVals[(((i - 1) \div 4) % 4) + 1]  sel == (i - 1) \div 16
-                               r == Run(prog, 1, av, bv, sel, [ok |-> TRUE, temps |-> <<>>])
-                           IN [a |-> av, b |-> bv, sel |-> sel, ok |-> r.ok, temps |-> r.temps]]
+\* the last two values of a are non-canonical representations a witness can carry (value q and q+2 fit the limbs)
+ProbeA == <<0, 1, 2, Q - 1, Q, Q + 2>>
+ProbeB == <<0, 1, 2, Q - 1>>
+Probes == [i \in 1..48 |-> LET av == ProbeA[((i - 1) % 6) + 1]  bv == ProbeB[(((i - 1) \div 6) % 4) + 1]
+                               sel == ((i - 1) + ((i - 1) \div 6) + 2 * ((i - 1) \div 24)) % 4
+                               r == Run(prog, 1, av, bv, sel, [ok |-> TRUE, un |-> FALSE, temps |-> <<>>])
+                           IN [a |-> av, b |-> bv, sel |-> sel, ok |-> r.ok, un |-> r.un, temps |-> r.temps]]
 
 Finish == /\ Len(prog) = MaxLen /\ cur = NoCur /\ ~done /\ done' = TRUE /\ UNCHANGED <<prog, cur>>
           /\ (IF Emit THEN PrintT("BEH" \o ToJson([prog |-> prog, q |-> Q, probes |-> Probes])) ELSE TRUE)
